@@ -268,6 +268,8 @@ def register(hub, exhaustive: bool, rng, prop="C04", max_pairs=24):
         if not numeric(xs) or len(xs.letters) > MAX_DIMS or len(xs.letters) < 2 or xs.values.size > MAX_SIZE:
             return
         key = call.arg(1)
+        if isinstance(key, dict) and any(hasattr(v, "__next__") for v in key.values()):
+            return
         sel, status, kind = parse_key(fd, xs, key)
         combos, full = pick((px,) for px in itertools.permutations(xs.letters))
         n = 0
@@ -301,6 +303,8 @@ def register(hub, exhaustive: bool, rng, prop="C04", max_pairs=24):
         if not numeric(ts) or len(ts.letters) > MAX_DIMS or ts.values.size > MAX_SIZE:
             return
         key = call.arg(1)
+        if isinstance(key, dict) and any(hasattr(v, "__next__") for v in key.values()):
+            return
         rhs = call.arg(2)
         ss = call.pre[2] if len(call.pre) > 2 else None
         if isinstance(rhs, fd.FlodymArray):
